@@ -2,13 +2,15 @@
 EXTENDS TlsAccept, TLC, Json
 VARIABLES row, done
 Init == /\ row \in [kind : {"tls"}, chain : {"ca", "self", "unknown"}, expired : BOOLEAN, nameOK : BOOLEAN,
-                    certs : BOOLEAN, hosts : BOOLEAN, root : BOOLEAN, rootIsLeaf : BOOLEAN, path : {"direct", "connect", "httpsproxy"},
+                    certs : BOOLEAN, hosts : BOOLEAN, root : BOOLEAN, rootIsLeaf : BOOLEAN, path : {"direct", "connect", "httpsproxy", "tls-proxy-bad", "tls-proxy-good"},
                     scope : {"request", "session", "sibling", "override", "override_certs"}, host : {"domain", "ipv6"}, pop : BOOLEAN]
         /\ (row.rootIsLeaf => (row.chain = "self" /\ ~row.root))   \* the server's own certificate added as the root
         \* IPv6-literal origins: certificates from the private CA, reached directly and through a tunnel
         /\ (row.host = "ipv6" => (row.chain = "ca" /\ ~row.expired /\ row.path \in {"direct", "connect"} /\ row.scope \in {"request", "session"} /\ row.pop))
         \* peers replaying a genuine certificate (private CA, valid) without its key: direct, every flag combination
         /\ (~row.pop => (row.chain = "ca" /\ ~row.expired /\ row.path = "direct" /\ row.scope = "request" /\ row.host = "domain" /\ ~row.rootIsLeaf))
+        \* TLS inside TLS (https origin behind an https proxy): flags on the request or the session
+        /\ (row.path \in {"tls-proxy-bad", "tls-proxy-good"} => (row.scope \in {"request", "session"} /\ ~row.rootIsLeaf))
         /\ done = FALSE
 Next == ~done /\ done' = TRUE /\ UNCHANGED row
 Spec == Init /\ [][Next]_<<row, done>>
